@@ -296,6 +296,21 @@ func gen(t *rapid.T) Case {
 	r := yref.New(set)
 	r.Expand()
 	c := Case{Good: set.Texts(), Bad: badTexts(t, set)}
+	if rapid.IntRange(0, 3).Draw(t, "revision-family") == 0 {
+		// several revisions of one module, and modules that import it with and without a revision-date: what
+		// the bare name and the prefix denote changes when a later revision is loaded after a processing run
+		dates := []string{"2019-05-05", "2020-01-01", "2021-12-31"}
+		kinds := []string{"string", "int32", "boolean"}
+		n := rapid.IntRange(2, 3).Draw(t, "revisions")
+		for i := 0; i < n; i++ {
+			c.Good = append(c.Good, ymodel.Source{Name: "fam@" + dates[i] + ".yang", Text: fmt.Sprintf("module fam {\n namespace \"urn:fam\";\n prefix f;\n revision %s;\n typedef t { type %s; units \"r%d\"; }\n grouping g { leaf from-r%d { type t; } }\n identity id;\n identity sub%d { base id; }\n container c%d { leaf own { type t; } }\n container c { }\n}\n", dates[i], kinds[i], i, i, i, i)})
+		}
+		c.Good = append(c.Good, ymodel.Source{Name: "famuser.yang", Text: "module famuser {\n namespace \"urn:famuser\";\n prefix u;\n import fam { prefix f; }\n leaf l { type f:t; }\n container k { uses f:g; }\n leaf r { type identityref { base f:id; } }\n identity mine { base f:id; }\n augment \"/f:c\" { leaf added { type string; } }\n}\n"})
+		if rapid.Bool().Draw(t, "dated-user") {
+			d := dates[rapid.IntRange(0, n-1).Draw(t, "dated-user-revision")]
+			c.Good = append(c.Good, ymodel.Source{Name: "famuser2.yang", Text: fmt.Sprintf("module famuser2 {\n namespace \"urn:famuser2\";\n prefix u;\n import fam { prefix f; revision-date %s; }\n leaf l { type f:t; }\n container k { uses f:g; }\n augment \"/f:c\" { leaf added2 { type string; } }\n}\n", d)})
+		}
+	}
 	order := schema.Order(t, len(c.Good))
 	next := 0
 	n := rapid.IntRange(2, 12).Draw(t, "ops")
@@ -326,12 +341,12 @@ func TestCheck(t *testing.T) {
 	ev.Run(t, ev.Spec[Case]{
 		ID:    "C18",
 		Level: "exploration",
-		Rule: "operation histories of 3-13 steps on one module set: load(next text of a pool of mutually consistent single-(sub)module texts from the schema model, in a random order so that imports and includes are often not yet loaded), load(bad text: syntax error; module or submodule rejected by a later statement after an inner node with a typedef was already built; a duplicate of a loaded text), process, read (accessors and path lookups that create rpc input/output on demand). " +
+		Rule: "operation histories of 3-13 steps on one module set: load(next text of a pool of mutually consistent single-(sub)module texts from the schema model - a quarter of the pools also hold 2-3 revisions of one module with modules importing it with and without revision-date, using its typedef, grouping, identity and augmenting it - in a random order so that imports and includes are often not yet loaded and later revisions arrive after a processing run), load(bad text: syntax error; module or submodule rejected by a later statement after an inner node with a typedef was already built; a duplicate of a loaded text), process, read (accessors and path lookups that create rpc input/output on demand). " +
 			"Oracle (model = list of accepted good texts): after every process the error list and, when it is empty, the complete dump (trees of all modules and submodules with types, attributes and identity value lists) equal those of a fresh set into which exactly the accepted texts were loaded in the same order and processed once; two consecutive process runs give equal results; every bad load returns an error. " +
 			"Non-trivial = a process after a failed load, or a process after a load that followed an earlier process; distinct by (texts, operation sequence)",
 		Assumptions: []string{
 			"texts holding several modules are not used (earlier modules of a failing text stay loaded, documented)",
-			"no module revisions are involved",
+			"revisions of one module name appear only in the dedicated family (2-3 dated revisions, an undated and a dated importer); the other texts carry none",
 		},
 		Check: check,
 		Gen:   gen,
